@@ -904,7 +904,14 @@ func (x *gen) joinOverlap() ex {
 
 	// nested side: an outer aggregation whose list overlaps the inner one
 	var nested ex
-	switch x.choose([]prod{{"by", 5}, {"without", 2}, {"fn", 1}, {"none", 1}}, "ovouter") {
+	switch x.choose([]prod{{"by", 5}, {"without", 2}, {"fn", 1}, {"none", 1}, {"setop", 3}}, "ovouter") {
+	case "setop":
+		// `X and|unless on(L ..) Y` keeps X's labels: when X lacks L the result lacks L too
+		if g.SetOps && g.On {
+			nested = ex{x.operand(inner) + " " + x.pick([]string{"and", "unless"}, "ovsetop") + " on(" + strings.Join(x.someOf(others, []string{L}, "ovseton"), ", ") + ") " + sel().s, false}
+		} else {
+			nested = ex{x.operand(inner), true}
+		}
 	case "by":
 		must := []string{L, M}
 		if x.chance(1, 4, "ovbyonly") {
